@@ -80,7 +80,9 @@ JUNK_ACL = ["foo bar", "permit ip any", "permit tcp any any eq bogusname", "perm
             "permit bogus any any", "deny", "permit ip any any eq 80", "permit tcp any lt 1 2 any", "access-list 10 permit any",
             "20 foo", "permit 256 any any", "permit tcp any any range 5", "no permit ip any any", "permit ip host any", "Permit ip any any",
             "ignore", "description", "statistics", "descriptions of things", "statistics-per-entry", "ignored-by-policy any", "ignoreX y",
-            "remarkable text", "permitted ip any any", "denyip any any"]
+            "remarkable text", "permitted ip any any", "denyip any any",
+            "ip access-list extended OTHER", "ip access-list resequence 10 10", "ip access-list OTHER", "object-group network G1",
+            "interface Ethernet1/1", "ip access-group A1 in", "exit", "end"]
 JUNK_MEMBER = ["foo", "10.0.0.256 255.255.255.0", "host", "10.0.0.0/33", "range 10.0.0.1 10.0.0.5", "10 bar baz", "10.0.0.1 255.0.255.0"]
 IGNORABLE = ["statistics per-entry", "description some text", "ignore routable", "statistics x y z"]
 
